@@ -515,6 +515,36 @@ func RunFDMatrix(w *World, r *Report) {
 		}
 	}
 	r.Floor("fdmatrix", 1)
+	// the font dictionary is a property of the glyph: a query that asks for the font dictionary of
+	// one fixed glyph applies that glyph's matrix to all the others
+	r.Rule("fdglyph: no call of the FDSelect function of CFF outlines in the library passes a constant glyph id: the font dictionary (and with it the matrix and the private dictionary) is chosen per glyph")
+	m := 0
+	for _, fn := range w.LibFuncs() {
+		for _, b := range fn.Blocks {
+			for _, in := range b.Instrs {
+				c, ok := in.(*ssa.Call)
+				if !ok || c.Call.IsInvoke() || c.Call.StaticCallee() != nil || len(c.Call.Args) != 1 {
+					continue
+				}
+				ld, ok := c.Call.Value.(*ssa.UnOp)
+				if !ok {
+					continue
+				}
+				fa, ok := ld.X.(*ssa.FieldAddr)
+				if !ok || fieldName(fa) != "FDSelect" {
+					continue
+				}
+				m++
+				key := r.MkKey("fdglyph", fnName(fn), "FDSelect("+valueText(c.Call.Args[0])+")")
+				if _, isConst := c.Call.Args[0].(*ssa.Const); isConst {
+					r.Fail("fdglyph", key, w.Pos(c.Pos()), "the font dictionary is looked up for one fixed glyph: whatever is derived from it (matrix, private dictionary) is applied to glyphs of other font dictionaries too", nil)
+				} else {
+					r.OK("fdglyph", key, w.Pos(c.Pos()), "the glyph id is a variable")
+				}
+			}
+		}
+	}
+	r.Floor("fdglyph", 5)
 }
 
 // RunMatrixOrder: glyph coordinates of a CID-keyed font pass through the
